@@ -84,13 +84,73 @@ fn dto_tnode(e: &ds::DiscretionaryElem) -> TNode {
     }
 }
 
-fn typeset(font: &Font, text: &str) -> Vec<H> {
+/// Text to list. Inside a word `{0}` / `{1}` switch between two fonts (both are the same TFM file
+/// registered twice, so only the font *number* of the nodes differs). `shape` post-edits the list:
+/// 1 a glue appended, 2 every glue doubled, 3 penalty 0 after every glue, 4 explicit kern 0 after every
+/// glue, 5 penalty 10000 + glue appended (end of a paragraph), 6 font kern 0 after every glue.
+fn typeset(font: &Font, text: &str, shape: u8) -> Vec<H> {
     let mut tp = bwt::TextPreprocessorImpl::new(bwt::Params::plain_tex_defaults());
     tp.register_font(0, &font.tfm, font.lkp.clone());
+    tp.register_font(1, &font.tfm, font.lkp.clone());
     tp.activate_font(0);
     let mut list = vec![];
-    tp.add_text(text, &mut list);
-    list
+    if !text.contains('{') {
+        tp.add_text(text, &mut list);
+    } else {
+        tp.new_paragraph();
+        let mut pending_space = text.chars().next().unwrap_or(' ').is_ascii_whitespace();
+        for word in text.split_ascii_whitespace() {
+            if pending_space {
+                tp.add_space(&mut list);
+            }
+            let mut rest = word;
+            while !rest.is_empty() {
+                if let Some(r) = rest.strip_prefix("{0}") {
+                    tp.activate_font(0);
+                    rest = r;
+                } else if let Some(r) = rest.strip_prefix("{1}") {
+                    tp.activate_font(1);
+                    rest = r;
+                } else {
+                    let end = rest.find('{').unwrap_or(rest.len());
+                    tp.add_word(&rest[..end], &mut list);
+                    rest = &rest[end..];
+                }
+            }
+            pending_space = true;
+        }
+    }
+    if shape == 0 {
+        return list;
+    }
+    let a_glue = list.iter().find(|h| matches!(h, H::Glue(_))).cloned();
+    let Some(glue) = a_glue else { return list };
+    let after_glue = |extra: H, list: Vec<H>| -> Vec<H> {
+        let mut out = vec![];
+        for h in list {
+            let g = matches!(h, H::Glue(_));
+            out.push(h);
+            if g {
+                out.push(extra.clone());
+            }
+        }
+        out
+    };
+    match shape {
+        1 => {
+            list.push(glue);
+            list
+        }
+        2 => after_glue(glue, list),
+        3 => after_glue(H::Penalty(ds::Penalty(0)), list),
+        4 => after_glue(ds::Kern { width: common::Scaled(0), kind: ds::KernKind::Explicit }.into(), list),
+        5 => {
+            list.push(H::Penalty(ds::Penalty(10000)));
+            list.push(glue);
+            list
+        }
+        _ => after_glue(ds::Kern { width: common::Scaled(0), kind: ds::KernKind::Normal }.into(), list),
+    }
 }
 
 fn show(l: &[H]) -> String {
@@ -452,10 +512,12 @@ struct Case {
     patterns: String,
     lhm: i32,
     rhm: i32,
+    /// see `typeset`
+    shape: u8,
 }
 impl Case {
     fn json(&self) -> Value {
-        json!({"kind": "list", "program": self.program.iter().map(|r| r.json()).collect::<Vec<_>>(), "program_text": self.program.iter().map(|r| r.compact()).collect::<Vec<_>>(), "text": self.text, "patterns": self.patterns, "lhm": self.lhm, "rhm": self.rhm})
+        json!({"kind": "list", "program": self.program.iter().map(|r| r.json()).collect::<Vec<_>>(), "program_text": self.program.iter().map(|r| r.compact()).collect::<Vec<_>>(), "text": self.text, "patterns": self.patterns, "lhm": self.lhm, "rhm": self.rhm, "shape": self.shape})
     }
 }
 
@@ -468,6 +530,13 @@ struct Env {
 
 fn real_hyphenator(env: &Env, font: &Font, patterns: &str, lhm: i32, rhm: i32) -> boxworks_hyphenate::Hyphenator {
     let _ = env;
+    if patterns == "plain" {
+        // the crate's own constructor (boxworks-bin uses it), then the minima
+        let mut h = boxworks_hyphenate::Hyphenator::plain_tex_en_us(font.lkp.clone());
+        h.left_hyphen_min = lhm;
+        h.right_hyphen_min = rhm;
+        return h;
+    }
     let hyphenator = match patterns {
         "plain" => hyphenate::Hyphenator::plain_tex_en_us(),
         "every" => {
@@ -490,7 +559,7 @@ fn every_position_patterns() -> String {
 /// Judge one list. Returns the class label of a failure (for the caller's triage) or None.
 fn judge(idx: u64, case: &Case, font: &Font, hy: &boxworks_hyphenate::Hyphenator, lang: &Liang, acc: &mut Acc) {
     acc.eval();
-    let before = match catch(|| typeset(font, &case.text)) {
+    let before = match catch(|| typeset(font, &case.text, case.shape)) {
         Ok(l) => l,
         Err(p) => {
             // not the subject of this property (C05/C12 look at the text preprocessor); count and move on
@@ -635,7 +704,7 @@ impl Rule {
             "RB" => Sym::RB,
             o => Sym::C(o.as_bytes()[0]),
         };
-        let op = if v["kern"].is_i64() { Op::Kern(v["kern"].as_i64().unwrap() as i32) } else { Op::Lig(v["lig"].as_str().unwrap().as_bytes()[0], v["op"].as_u64().unwrap() as u8) };
+        let op = if v["kern"].is_i64() { Op::Kern(v["kern"].as_i64().unwrap() as i32) } else { Op::Lig(v["lig"].as_str().unwrap().chars().next().unwrap() as u32 as u8, v["op"].as_u64().unwrap() as u8) };
         Rule { left: s(&v["l"]), right: s(&v["r"]), op }
     }
     fn compact(&self) -> String {
@@ -766,6 +835,7 @@ fn main() {
             patterns: case["patterns"].as_str().unwrap_or("plain").to_string(),
             lhm: case["lhm"].as_i64().unwrap_or(2) as i32,
             rhm: case["rhm"].as_i64().unwrap_or(3) as i32,
+            shape: case["shape"].as_u64().unwrap_or(0) as u8,
         };
         let font = synthetic_font(&env, &c.program).expect("program of a replay case compiles");
         let hy = real_hyphenator(&env, &font, &c.patterns, c.lhm, c.rhm);
@@ -775,7 +845,7 @@ fn main() {
             _ => &env.every_ab,
         };
         judge(0, &c, &font, &hy, lang, &mut acc);
-        let before = typeset(&font, &c.text);
+        let before = typeset(&font, &c.text, c.shape);
         eprintln!("original list: {}", show(&before));
         let mut after = before.clone();
         if catch(|| hy.hyphenate(&mut after)).is_ok() {
@@ -788,7 +858,7 @@ fn main() {
 
     // ---------------- F1: cmr10, vocabulary x templates x pattern sets x minima
     let vocab: Vec<String> = {
-        let mut v: Vec<String> = ["difficult", "office", "shuffling", "waffle", "affliction", "fifty", "efficient", "Contents", "hyphenation", "a", "fi", "baffling", "stiffly", "chaff", "flyleaf", "halfback", "shelfful", "x-y", "AVATAR", "e.g.", "offline", "fluffiest", "raffish", "offhand", "OFFICE", "Office", "well-known", "don't", "fjord", "afford", "cliffs", "fflfi", "table", "project", "association", "typewriter", "WAVY", "ff", "3.0", "--", "``office''"].iter().map(|s| s.to_string()).collect();
+        let mut v: Vec<String> = ["difficult", "office", "shuffling", "waffle", "affliction", "fifty", "efficient", "Contents", "hyphenation", "a", "fi", "baffling", "stiffly", "chaff", "flyleaf", "halfback", "shelfful", "x-y", "AVATAR", "e.g.", "offline", "fluffiest", "raffish", "offhand", "OFFICE", "Office", "well-known", "don't", "fjord", "afford", "cliffs", "fflfi", "table", "project", "association", "typewriter", "WAVY", "ff", "3.0", "--", "``office''", "naïve", "café.", "éclair", "𝐚ffine", "office—suffix", "difficult\u{a0}"].iter().map(|s| s.to_string()).collect();
         v.extend(long_words());
         v
     };
@@ -801,18 +871,24 @@ fn main() {
             hys.push((ps.to_string(), l, r, real_hyphenator(&env, &cmr, ps, l, r)));
         }
     }
-    for (l, r) in [(0, 0), (-1, 5), (64, 1), (2, 62)] {
+    for (l, r) in [(0, 0), (-1, 5), (64, 1), (2, 62), (63, 1), (1, 63), (62, 1), (1, 62), (31, 32), (32, 32), (i32::MIN, i32::MAX)] {
         hys.push(("every".to_string(), l, r, real_hyphenator(&env, &cmr, "every", l, r)));
     }
     {
         let templates: Vec<&str> = vec!["x {}", "x {}.", "x {}, y", "3.0 {}", "x 3.0 {}", "({})", "x ({})", "x {} {}", "{} {}", "x ``{}''", "x {}: ; {}", "x --- {}"];
         let (nv, nt, nh) = (vocab.len() as u64, templates.len() as u64, hys.len() as u64);
         let (vocab_r, templates_r, hys_r, env_r, cmr_r) = (&vocab, &templates, &hys, &env, &cmr);
-        ctx.family("cmr10-one-word", &format!("cmr10: {nv} words (every cmr10 ligature at a hyphen position, capitals, explicit hyphens, punctuation, 63/64/65-letter words, a ligature across the 63-letter limit) x {nt} templates (x W | x W. | x W, y | 3.0 W | x 3.0 W | (W) | x (W) | x W W | W W | x ``W'' | x W: ; W | x --- W) x (plain TeX patterns, 'every position' patterns) x minima {{1,2,3}}^2 (+ 4 out-of-range settings)"), nv * nt * nh, |idx, acc| {
+        ctx.family("cmr10-one-word", &format!("cmr10: {nv} words (every cmr10 ligature at a hyphen position, capitals, explicit hyphens, punctuation, 63/64/65-letter words, a ligature across the 63-letter limit) x {nt} templates (x W | x W. | x W, y | 3.0 W | x 3.0 W | (W) | x (W) | x W W | W W | x ``W'' | x W: ; W | x --- W) x (plain TeX patterns, 'every position' patterns) x minima {{1,2,3}}^2 (+ 11 settings at the limits: 0, negative, 62/63/64, sums 63/64, i32::MIN/MAX)"), nv * nt * nh, |idx, acc| {
             let d = vcore::digits(idx, &[nv, nt, nh]);
             let w = &vocab_r[d[0] as usize];
             let (ps, l, r, hy) = &hys_r[d[2] as usize];
-            let case = Case { program: vec![], text: templates_r[d[1] as usize].replace("{}", w), patterns: ps.clone(), lhm: *l, rhm: *r };
+            let case = Case { program: vec![], text: templates_r[d[1] as usize].replace("{}", w), patterns: ps.clone(), lhm: *l, rhm: *r, shape: 0 };
+            if !case.text.is_ascii() {
+                acc.count("text_with_a_non_ascii_character");
+            }
+            if liang::norm_min(*l as i64) + liang::norm_min(*r as i64) >= 63 {
+                acc.count("minima_sum_63_or_more");
+            }
             judge(idx, &case, cmr_r, hy, if ps == "plain" { &env_r.plain } else { &env_r.every }, acc);
             if idx % 4999 == 7 {
                 acc.sample(idx, || case.json());
@@ -830,7 +906,58 @@ fn main() {
         ctx.family("cmr10-two-words", &format!("cmr10: 'x W1 W2' for every ordered pair of the {nv} words{} x all {nh} (pattern set, minima) settings", if maxlen == 16 { " of at most 16 characters" } else { " of the vocabulary" }), nv * nv * nh, |idx, acc| {
             let d = vcore::digits(idx, &[nv, nv, nh]);
             let (ps, l, r, hy) = &hys_r[sel_r[d[2] as usize]];
-            let case = Case { program: vec![], text: format!("x {} {}", short_r[d[0] as usize], short_r[d[1] as usize]), patterns: ps.clone(), lhm: *l, rhm: *r };
+            let case = Case { program: vec![], text: format!("x {} {}", short_r[d[0] as usize], short_r[d[1] as usize]), patterns: ps.clone(), lhm: *l, rhm: *r, shape: 0 };
+            judge(idx, &case, cmr_r, hy, if ps == "plain" { &env_r.plain } else { &env_r.every }, acc);
+        });
+    }
+    // ---------------- F2b: two fonts (the same TFM registered as font 0 and font 1)
+    {
+        let words: Vec<&String> = vocab.iter().filter(|w| w.len() <= 12 && w.chars().all(|c| c.is_ascii_alphabetic())).collect();
+        let mut cases: Vec<(String, usize)> = vec![];
+        let sel: Vec<usize> = hys.iter().enumerate().filter(|(_, h)| matches!((h.0.as_str(), h.1, h.2), ("plain", 1, 1) | ("plain", 2, 3) | ("every", 1, 1) | ("every", 2, 2) | ("every", 1, 3) | ("every", 3, 1))).map(|(i, _)| i).collect();
+        for w in &words {
+            for k in 0..=w.len() {
+                for (fa, fb) in [(0, 1), (1, 0), (1, 1)] {
+                    // two adjacent runs in the SAME font are not one run of the main loop: TeX itself
+                    // re-forms the ligatures across the seam when it rebuilds the word (the TeXbook's
+                    // shelf{}ful), so only the whole word in font 1 is used for (1,1)
+                    if fa == fb && k != 0 {
+                        continue;
+                    }
+                    for tail in ["", " {0}y", "{0}."] {
+                        // (a period in font 0 directly after letters of font 0 would be a same-font seam again)
+                        if tail == "{0}." && (if k < w.len() { fb } else { fa }) == 0 {
+                            continue;
+                        }
+                        for &h in &sel {
+                            cases.push((format!("x {{{fa}}}{}{{{fb}}}{}{tail}", &w[..k], &w[k..]), h));
+                        }
+                    }
+                }
+            }
+        }
+        let (cases_r, hys_r, env_r, cmr_r) = (&cases, &hys, &env, &cmr);
+        ctx.family("cmr10-two-fonts", &format!("cmr10 registered as font 0 and font 1: 'x W' with each of the {} letter-only words of at most 12 letters switched from font fa to font fb at every split position, (fa,fb) in (0,1),(1,0), or wholly in font 1, followed by nothing | a word in font 0 | (after letters of font 1) a period in font 0 x 6 (pattern set, minima) settings", words.len()), cases.len() as u64, |idx, acc| {
+            let (text, h) = &cases_r[idx as usize];
+            let (ps, l, r, hy) = &hys_r[*h];
+            let case = Case { program: vec![], text: text.clone(), patterns: ps.clone(), lhm: *l, rhm: *r, shape: 0 };
+            if !text.contains("{0}{1}") && !text.contains("{1}{0}") && (text.contains("{0}") && text[3..].contains("{1}")) {
+                acc.count("word_split_by_a_font_change");
+            }
+            judge(idx, &case, cmr_r, hy, if ps == "plain" { &env_r.plain } else { &env_r.every }, acc);
+        });
+    }
+    // ---------------- F2c: list shapes that text alone does not produce
+    {
+        let words = ["difficult", "office", "Contents", "waffle", "fi", "a"];
+        let templates = ["x {}", "x {} y", "x 3.0 {}", "{} {}"];
+        let (nw, nt, ns, nh) = (words.len() as u64, templates.len() as u64, 6u64, hys.len() as u64);
+        let (hys_r, env_r, cmr_r) = (&hys, &env, &cmr);
+        ctx.family("cmr10-list-shapes", &format!("cmr10: {nw} words x {nt} templates x 6 post-edits of the list (a glue appended | every glue doubled | penalty 0 after every glue | explicit kern 0 after every glue | penalty 10000 + glue appended | font kern 0 after every glue) x all {nh} (pattern set, minima) settings"), nw * nt * ns * nh, |idx, acc| {
+            let d = vcore::digits(idx, &[nw, nt, ns, nh]);
+            let (ps, l, r, hy) = &hys_r[d[3] as usize];
+            let case = Case { program: vec![], text: templates[d[1] as usize].replace("{}", words[d[0] as usize]), patterns: ps.clone(), lhm: *l, rhm: *r, shape: d[2] as u8 + 1 };
+            acc.count("hand_made_list_shape");
             judge(idx, &case, cmr_r, hy, if ps == "plain" { &env_r.plain } else { &env_r.every }, acc);
         });
     }
@@ -852,12 +979,14 @@ fn main() {
     let ins_text = |v: &[u8]| v.iter().map(|c| (*c as char).to_string()).collect::<Vec<_>>().join("|");
     {
         let words = words_ab(4);
-        let wide = all_rules(65536, &[b'a', b'b', b'c', b'-'], &all_kinds);
+        // (0xE9 = é: a ligature character above 127; KRN 0: a kern node of width zero)
+        let mut wide = all_rules(65536, &[b'a', b'b', b'c', b'-', 0xE9], &all_kinds);
+        wide.extend(all_rules(0, &[], &[]));
         let mut programs: Vec<Vec<Rule>> = vec![vec![]];
         programs.extend(wide.iter().map(|r| vec![*r]));
         let smins: Vec<(i32, i32)> = vec![(1, 1), (2, 1), (1, 2)];
         let (np, words_r, programs_r, env_r, st, smins_r) = (programs.len() as u64, &words, &programs, &env, &synth_templates, &smins);
-        ctx.family_ranges("synthetic-one-rule", &format!("cmr10 with its lig/kern program replaced by the empty program or one of the {} single rules over {{left boundary,a,b,-}} x {{a,b,-,right boundary(=c)}} x {{kern, 8 ligature kinds inserting a|b|c|-}} x all {} words over {{a,b}} of length 1..4 x {} templates (x W | x W. | x W-a | x -W | x .W | W W | x . W) x 'every position' patterns x minima (1,1),(2,1),(1,2)", np - 1, words.len(), st.len()), np, |r, acc| {
+        ctx.family_ranges("synthetic-one-rule", &format!("cmr10 with its lig/kern program replaced by the empty program or one of the {} single rules over {{left boundary,a,b,-}} x {{a,b,-,right boundary(=c)}} x {{kern, kern of width 0, 8 ligature kinds inserting a|b|c|-|é(0xE9)}} x all {} words over {{a,b}} of length 1..4 x {} templates (x W | x W. | x W-a | x -W | x .W | W W | x . W) x 'every position' patterns x minima (1,1),(2,1),(1,2)", np - 1, words.len(), st.len()), np, |r, acc| {
             for pi in r {
                 run_synthetic(pi, &programs_r[pi as usize], words_r, st, smins_r, env_r, acc);
             }
@@ -911,6 +1040,12 @@ fn main() {
         });
     }
 
+    ctx.require("word_split_by_a_font_change", "a run of letters changes font in the middle (TeX tries only the letters of the first font)");
+    ctx.require("hand_made_list_shape", "lists with doubled/trailing glue, zero penalties and zero kerns");
+    ctx.require("synthetic_rule_with_a_zero_width_kern", "a lig/kern rule whose kern has width 0");
+    ctx.require("synthetic_ligature_character_above_127", "a ligature rule that inserts a character above 127");
+    ctx.require("text_with_a_non_ascii_character", "text with 2-, 3- and 4-byte characters (all non-letters for plain TeX's \\lccode)");
+    ctx.require("minima_sum_63_or_more", "hyphen minima whose sum reaches TeX's 63-letter limit");
     ctx.require("cut_strictly_inside_a_ligature", "an expected hyphen falls strictly inside a ligature of the original list");
     ctx.require("second_odd_position_inside_one_ligature", "two Liang positions inside one ligature (TeX offers only the first)");
     ctx.require("word_cut_off_at_63_letters", "a word of more than 63 letters is tried with its first 63 letters");
@@ -956,7 +1091,7 @@ fn run_synthetic(idx: u64, rules: &[Rule], words: &[String], templates: &[&str],
         let hy = real_hyphenator(env, &font, "every_ab", l, r);
         for w in words {
             for t in templates {
-                let case = Case { program: rules.to_vec(), text: t.replace("{}", w), patterns: "every_ab".into(), lhm: l, rhm: r };
+                let case = Case { program: rules.to_vec(), text: t.replace("{}", w), patterns: "every_ab".into(), lhm: l, rhm: r, shape: 0 };
                 // counters from the case: does a boundary / hyphen rule touch this text?
                 let first = w.as_bytes()[0];
                 let last = *w.as_bytes().last().unwrap();
@@ -968,6 +1103,12 @@ fn run_synthetic(idx: u64, rules: &[Rule], words: &[String], templates: &[&str],
                 }
                 if rules.iter().any(|r| r.right == Sym::C(b'-') && matches!(r.left, Sym::C(c) if w.as_bytes()[..w.len() - 1].contains(&c))) {
                     acc.count("synthetic_hyphen_rule_at_a_cut");
+                }
+                if rules.iter().any(|r| r.op == Op::Kern(0)) {
+                    acc.count("synthetic_rule_with_a_zero_width_kern");
+                }
+                if rules.iter().any(|r| matches!(r.op, Op::Lig(z, _) if z >= 128)) {
+                    acc.count("synthetic_ligature_character_above_127");
                 }
                 judge(idx, &case, &font, &hy, &env.every_ab, acc);
             }
